@@ -85,7 +85,8 @@ func init() {
 
 		for _, f := range []string{"AnalyzeFiles", "analyzeModuleDependencies", "collectModuleImports", "walkStatements",
 			"resolveImport", "resolveRelativeImport", "resolveAbsoluteImport", "resolveAbsoluteImportWithProject",
-			"moduleNameFromImport", "filePathToModuleName", "pathToModuleName", "isStandardLibrary", "isTypeCheckingCondition"} {
+			"moduleNameFromImport", "filePathToModuleName", "pathToModuleName", "isStandardLibrary", "isTypeCheckingCondition",
+			"isNotTypeCheckingCondition", "runtimeValue", "containsTypeChecking", "dirExists"} {
 			recordDigest(an, "module_analyzer.go", "ModuleAnalyzer", f)
 		}
 		for _, f := range []string{"GetReExportMap", "ResolveReExport", "findInitFile", "parseInitFile", "processImportFrom"} {
